@@ -74,6 +74,30 @@ where
 pub struct Tag;
 type SM = SimpleMarker<Tag>;
 
+/// Marker kinds whose ids the harness can choose explicitly.
+pub trait MkId: Marker {
+    fn mk(i: u64) -> Self::Identifier;
+    /// a marker with this id built without the allocator, where the type has a public constructor
+    fn direct(_i: u64) -> Option<Self> {
+        None
+    }
+}
+impl MkId for SM {
+    fn mk(i: u64) -> u64 {
+        // non-monotone in the entity order
+        (7 - (i % 8)) + 8 * (i / 8)
+    }
+}
+impl MkId for UuidMarker {
+    fn mk(i: u64) -> specs::uuid::Uuid {
+        // i = 0 is the nil uuid
+        specs::uuid::Uuid::from_u128(i as u128)
+    }
+    fn direct(i: u64) -> Option<Self> {
+        Some(UuidMarker::new(Self::mk(i)))
+    }
+}
+
 fn new_world<M: Marker + Component>() -> World
 where
     M::Storage: Default,
@@ -184,6 +208,12 @@ pub struct WorldSpec {
     /// the target world is not new but emptied (loaded once, delete_all, maintain)
     #[serde(default)]
     pub emptied: bool,
+    /// marker ids chosen by the caller (allocate(entity, Some(id)) + insert) instead of mark()
+    #[serde(default)]
+    pub explicit_ids: bool,
+    /// source entities created through the shared resource on recycled indices, saved before maintain
+    #[serde(default)]
+    pub deferred_src: bool,
 }
 
 /// What an entity looks like, described through marker ids only.
@@ -232,7 +262,7 @@ where
     Ok(out)
 }
 
-fn roundtrip<M: Marker + Component>(spec: &WorldSpec) -> Result<String, String>
+fn roundtrip<M: MkId + Component>(spec: &WorldSpec) -> Result<String, String>
 where
     M::Storage: Default,
     M::Allocator: Default,
@@ -241,7 +271,16 @@ where
     let mut src = new_world::<M>();
     // an unrelated leading entity so that source and target indices differ
     let pad = src.create_entity().build();
-    let es: Vec<Entity> = (0..spec.n).map(|_| src.create_entity().build()).collect();
+    let es: Vec<Entity> = if spec.deferred_src {
+        let doomed: Vec<Entity> = (0..spec.n).map(|_| src.create_entity().build()).collect();
+        for d in &doomed {
+            src.delete_entity(*d).unwrap();
+        }
+        src.maintain();
+        (0..spec.n).map(|_| src.entities().create()).collect()
+    } else {
+        (0..spec.n).map(|_| src.create_entity().build()).collect()
+    };
     src.delete_entity(pad).unwrap();
     for (i, e) in es.iter().enumerate() {
         if spec.pa & (1 << i) != 0 {
@@ -262,9 +301,21 @@ where
         if spec.marked & (1 << i) != 0 {
             let mut alloc = src.write_resource::<M::Allocator>();
             let mut st = src.write_storage::<M>();
-            match alloc.mark(*e, &mut st) {
-                Some((_, true)) => {}
-                other => return Err(format!("mark: marking a fresh live entity returned {:?}", other.map(|x| x.1))),
+            if spec.explicit_ids {
+                let m = alloc.allocate(*e, Some(M::mk(i as u64)));
+                // the source entity carries exactly the chosen id (built directly where possible)
+                let m = M::direct(i as u64).unwrap_or(m);
+                if format!("{:?}", m.id()) != format!("{:?}", M::mk(i as u64)) {
+                    return Err(format!("explicit-id: allocate(entity, Some({:?})) returned a marker with id {:?}", M::mk(i as u64), m.id()));
+                }
+                if st.insert(*e, m).is_err() {
+                    return Err("mark: inserting an explicitly allocated marker for a live entity failed".into());
+                }
+            } else {
+                match alloc.mark(*e, &mut st) {
+                    Some((_, true)) => {}
+                    other => return Err(format!("mark: marking a fresh live entity returned {:?}", other.map(|x| x.1))),
+                }
             }
         }
     }
@@ -458,14 +509,21 @@ fn c14(cli: &Cli) -> ! {
                     let plist: Vec<Vec<usize>> = if fmt == Fmt::Json && !recursive { perms.iter().filter(|p| p.iter().filter(|x| **x < n_marked).count() == n_marked).map(|p| p.iter().copied().filter(|x| *x < n_marked).collect::<Vec<_>>()).collect::<BTreeSet<_>>().into_iter().collect() } else { vec![vec![]] };
                     for perm in plist {
                         let emptied = perm.first().map(|x| *x != 0).unwrap_or(fmt == Fmt::Ron);
-                        let spec = WorldSpec { n, marked: *marked, pa: *pa, pb: *pb, link: link.clone(), link2: link2.clone(), uuid, recursive, fmt, perm, emptied };
-                        runs += 1;
-                        if n_marked > 0 && link.iter().any(|l| *l > 0) {
-                            nontrivial += 1;
-                        }
-                        if let Err(e) = run_spec(&spec) {
-                            if fail.is_none() {
-                                fail = Some((spec, e));
+                        // identity permutation / RON: also with caller-chosen ids (incl. the nil uuid and
+                        // non-monotone simple ids) and with a source whose entities await maintain on
+                        // recycled indices
+                        let variants: &[(bool, bool)] = if perm.iter().enumerate().all(|(i, x)| i == *x) { &[(false, false), (true, false), (false, true), (true, true)] } else { &[(false, false)] };
+                        for (explicit_ids, deferred_src) in variants {
+                            // recursive marking of reachable entities always uses mark()
+                            let spec = WorldSpec { n, marked: *marked, pa: *pa, pb: *pb, link: link.clone(), link2: link2.clone(), uuid, recursive, fmt, perm: perm.clone(), emptied, explicit_ids: *explicit_ids, deferred_src: *deferred_src };
+                            runs += 1;
+                            if n_marked > 0 && link.iter().any(|l| *l > 0) {
+                                nontrivial += 1;
+                            }
+                            if let Err(e) = run_spec(&spec) {
+                                if fail.is_none() {
+                                    fail = Some((spec, e));
+                                }
                             }
                         }
                     }
@@ -530,6 +588,9 @@ pub enum Op {
     Save,
     /// 0 = the register, 1 / 2 = canned data from another world
     Load(u8),
+    /// remove the marker component directly through its storage (outside C15's quantifier:
+    /// only used by the determinism check, where no oracle but transcript equality applies)
+    Unmark(u8),
 }
 
 pub fn show_ops(ops: &[Op]) -> String {
@@ -576,13 +637,14 @@ struct Run {
     register: Option<Vec<Rec>>,
     created: usize,
     viol: Option<String>,
+    quiet: bool,
     tr: u64,
     next_pa: u32,
 }
 
 macro_rules! fail {
     ($self:ident, $($arg:tt)*) => {{
-        if $self.viol.is_none() {
+        if $self.viol.is_none() && !$self.quiet {
             $self.viol = Some(format!($($arg)*));
         }
     }};
@@ -729,6 +791,14 @@ impl Run {
                 }
                 self.register = Some(want);
             }
+            Op::Unmark(s) => {
+                if !self.quiet || !ok_slot(s) {
+                    return false;
+                }
+                let r = self.w.write_storage::<SM>().remove(self.h[*s as usize]);
+                self.tr = fold64(self.tr, r.map(|m| m.id() + 1).unwrap_or(0));
+                self.marker[*s as usize] = None;
+            }
             Op::Load(k) => {
                 let recs: Vec<Rec> = match k {
                     0 => match &self.register {
@@ -874,6 +944,9 @@ impl Run {
             if self.st[s as usize] != St::Dead {
                 v.push(Op::SetPa(s));
             }
+            if self.quiet && self.marker[s as usize].is_some() {
+                v.push(Op::Unmark(s));
+            }
         }
         let budget = n_create.saturating_sub(self.created);
         v.retain(|op| match op {
@@ -895,7 +968,7 @@ impl Run {
 impl Sl {
     fn run_inner(&self, ops: &[Op], full: bool) -> Outcome<Op> {
         let _junk: Vec<Box<[u8; 56]>> = if self.perturb { (0..17).map(|_| Box::new([1u8; 56])).collect() } else { vec![] };
-        let mut r = Run { w: new_world::<SM>(), h: vec![], st: vec![], pending: vec![], marker: vec![], pa: vec![], pb: vec![], register: None, created: 0, viol: None, tr: 0, next_pa: 1000 };
+        let mut r = Run { w: new_world::<SM>(), h: vec![], st: vec![], pending: vec![], marker: vec![], pa: vec![], pb: vec![], register: None, created: 0, viol: None, quiet: self.transcript_only, tr: 0, next_pa: 1000 };
         for (i, op) in ops.iter().enumerate() {
             if !r.apply(op, self.n_create) {
                 return Outcome::invalid();
@@ -921,6 +994,12 @@ impl McSystem for Sl {
             Err(m) => Outcome { key: 0, next: vec![], violation: Some(format!("panic: unexpected panic inside a specs operation: {m}")), invalid: false, counters: vec![], transcript: 0 },
         }
     }
+}
+
+pub fn sl_system_quiet(n_create: usize, perturb: bool) -> Sl {
+    let mut s = sl_system(n_create, perturb);
+    s.transcript_only = true;
+    s
 }
 
 pub fn sl_system(n_create: usize, perturb: bool) -> Sl {
